@@ -457,6 +457,63 @@ def f7(prog, ctx):
     ctx.floor("F7", "path x profile pairs", n, 5)
 
 
+def f8(prog, ctx):
+    """Every processed read carries its exon / intron profile into the counters: whether the profiles are attached may depend on the run
+    option only, not on what kind of assignment the read got."""
+    AP = "src/alignment_processor.py"
+    n = 0
+    for m, q, f in prog.all_functions():
+        if m.rel != AP:
+            continue
+        for st in walk_no_nested(f):
+            if not (isinstance(st, ast.Assign) and any(isinstance(t, ast.Attribute) and t.attr.endswith("gene_profile") for t in st.targets)):
+                continue
+            n += 1
+            bad = None
+            for g in flow.guards_of(st, stop=f):
+                if g.kind == "early-exit":
+                    continue          # reads filtered out before (unmapped, supplementary, ...) are not processed at all: C05's business
+                for atom, pol in flow.conjuncts(g.test, g.polarity):
+                    names = {dotted(x) for x in ast.walk(atom) if isinstance(x, (ast.Name, ast.Attribute)) and dotted(x)
+                             and not isinstance(getattr(x, "_parent", None), ast.Attribute)}
+                    roots = {x.split(".")[0] + "." + x.split(".")[1] if x.count(".") else x for x in names}
+                    if not all(r_.startswith(("self.params", "self.args", "params", "args")) or r_[:1].isupper() for r_ in roots):
+                        bad = bad or (atom, pol)
+            tgt = next(t for t in st.targets if isinstance(t, ast.Attribute))
+            if bad:
+                ctx.fail("F8", st, q, src(st)[:90], "the %s of a read is stored only if %s%s: reads for which this is false reach the exon / intron "
+                         "counters with an empty profile and their include / exclude contributions are lost" % (tgt.attr, "" if bad[1] else "not ", src(bad[0])[:70]))
+            else:
+                ctx.ok("F8", "%s:%d" % (AP, st.lineno), "%s: %s attached under run options only" % (q, tgt.attr))
+    ctx.floor("F8", "profile attachments", n, 2)
+
+
+def f9(prog, ctx):
+    """The exon and the intron counter of a pair are built the same way (same arguments, exon <-> intron)."""
+    DSPM = "src/dataset_processor.py"
+    n = 0
+    for m, q, f in prog.all_functions():
+        if m.rel != DSPM:
+            continue
+        for blk_owner in ast.walk(f):
+            for fld in ("body", "orelse"):
+                blk = getattr(blk_owner, fld, None)
+                if not isinstance(blk, list):
+                    continue
+                ex = [c for st in blk if isinstance(st, ast.Assign) for c in [st.value] if isinstance(c, ast.Call) and call_name(c) == "ExonCounter"]
+                it = [c for st in blk if isinstance(st, ast.Assign) for c in [st.value] if isinstance(c, ast.Call) and call_name(c) == "IntronCounter"]
+                for a, b in zip(ex, it):
+                    n += 1
+                    sa = [src(x).replace("exon", "#") for x in a.args] + sorted("%s=%s" % (k.arg, src(k.value).replace("exon", "#")) for k in a.keywords)
+                    sb = [src(x).replace("intron", "#") for x in b.args] + sorted("%s=%s" % (k.arg, src(k.value).replace("intron", "#")) for k in b.keywords)
+                    if sa != sb:
+                        ctx.fail("F9", a, q, "%s vs %s" % (src(a)[:60], src(b)[:60]), "the exon counter and the intron counter of one pair are constructed "
+                                 "with different arguments (%s vs %s): one of the two tables is grouped / written differently from its twin" % (sa, sb))
+                    else:
+                        ctx.ok("F9", "%s:%d" % (DSPM, a.lineno), "%s: ExonCounter / IntronCounter pair built with parallel arguments" % q)
+    ctx.floor("F9", "exon / intron counter pairs", n, 2)
+
+
 def run(prog, ctx):
     ctx.rule("F5", "ProfileFeatureCounter.is_valid refers to the profile vectors only through `is (not) None` and hasattr - never "
                    "through truthiness or length (an empty profile is valid)")
@@ -473,6 +530,11 @@ def run(prog, ctx):
     ctx.rule("F6", "in set_feature_properties the strand string and the gene list passed to FeatureInfo are both aggregated by a comprehension over "
                    "the same collection (the isoforms containing the feature); neither picks a constant index of that collection")
     f6(prog, ctx)
+    ctx.rule("F8", "the assignments of <read>.exon_gene_profile / intron_gene_profile in the alignment collector are controlled by run options only")
+    f8(prog, ctx)
+    ctx.rule("F9", "sibling agreement: every ExonCounter(...) construction has an IntronCounter(...) twin in the same block with the same arguments "
+                   "(exon <-> intron)")
+    f9(prog, ctx)
     ctx.rule("F7", "construct_profiles: on every path, each profile passed to CombinedReadProfiles is (influence propagation) the result of its "
                    "own construct_* call; the exon profile may be missing only when params.count_exons is false")
     f7(prog, ctx)
